@@ -23,8 +23,9 @@ MANIFEST = dict(
     technique="TLA+ spec + TLC exhaustive model checking; edge-complete graph replay into the implementation through "
               "the gated interpreter",
     design="5/C11")
-INVS = ["TypeOK", "ItemsInOrder", "EndsWithError", "GenSeesCreation", "CallSeesStreamScope", "ConsumerIntact",
-        "StreamScopeCompletes"]
+INVS = ["TypeOK", "ItemsInOrder", "GenSeesCreation", "CallSeesStreamScope", "ConsumerIntact", "StreamScopeCompletes",
+        "SpawnedSettled"]
+PROPS = ["EndsWithError"]
 STREAM = 50
 BUSY = 77
 
@@ -35,6 +36,7 @@ class StreamsDriver:
         self.place, self.n, self.ending, self.nested = init["place"], init["n"], init["ending"], init["nested"]
         self.slow = init["slow"]
         self.kind = init["kind"]
+        self.gsp = init["gsp"]
         self.call_view = (0, 0, 0)
         self.hold = None
         self.puller = None
@@ -46,6 +48,8 @@ class StreamsDriver:
         async def gen(tag):
             assert tag == "t"
             for i in range(drv.n):
+                if drv.gsp and i == 0:
+                    w.tasks["sp"] = ctx.spawn(w.run_task, "sp")   # lands in the stream's own task group
                 if drv.slow == i + 1:
                     drv.hold = w.loop.create_future()   # suspended before this item until the driver releases it
                     await drv.hold
@@ -90,6 +94,10 @@ class StreamsDriver:
             return (BUSY, BUSY, BUSY) if self.w.status("1") == "busy" else ("gone", self.w.status("1"), 0)
         return (p["A"], self._m(p["ms"]), self._m(p["tg"]))
 
+    def _sp(self):
+        st = self.w.status("sp")
+        return {"unborn": "none", "gate": "run", "busy": "run"}.get(st, st)
+
     def _run(self, fn):
         if self.place == "other_task":
             self.k += 1
@@ -107,16 +115,34 @@ class StreamsDriver:
             self.w.do(self.puller, "leave", "return")
 
     def apply(self, name, args):
+        o = self._apply(name, args)
+        self.last = o
+        return o
+
+    def _apply(self, name, args):
         w = self.w
         res = self.res = []
-        if name in ("Release", "CancelPull"):
+        if name == "EndSpawned":
+            # the task ends; a pull that was waiting for it (an exhausted stream) completes, everything else stays as
+            # it was last seen
+            before = len(getattr(self, "pending", []))
+            w.do("sp", "leave", "return")
+            w.loop.quiesce()
+            self._retire()
+            pend = getattr(self, "pending", [])
+            prev = getattr(self, "last", None) or dict(res=("none", 0, 0, 0, 0))
+            res1 = pend[0] if len(pend) > before else prev["res"]
+            return dict(res=res1, cons=self._cons(), s1=bool(self.done), call=tuple(self.call_view), sp=self._sp())
+        if name in ("Release", "CancelPull", "EndSpawned"):
             if name == "Release":
                 self.hold.set_result(None)
+            elif name == "EndSpawned":
+                w.do("sp", "leave", "return")
             else:
                 w.tasks[self.puller].cancel()
             w.loop.quiesce()
             self._retire()
-            return dict(res=self.pending[0] if self.pending else ("hang", 0, 0, 0, 0), cons=self._cons(), s1=bool(self.done), call=tuple(self.call_view))
+            return dict(res=self.pending[0] if self.pending else ("hang", 0, 0, 0, 0), cons=self._cons(), s1=bool(self.done), call=tuple(self.call_view), sp=self._sp())
         if name == "Pull":
             res = self.pending = []
             async def nx():
@@ -146,9 +172,9 @@ class StreamsDriver:
         else:
             raise ValueError(name)
         w.loop.quiesce()
-        if not res and name == "Pull" and self.hold is not None and not self.hold.done():
-            return dict(res=("pending", 0, 0, 0, 0), cons=self._cons(), s1=bool(self.done), call=tuple(self.call_view))
-        return dict(res=res[0] if res else ("hang", 0, 0, 0, 0), cons=self._cons(), s1=bool(self.done), call=tuple(self.call_view))
+        if not res and name == "Pull" and ((self.hold is not None and not self.hold.done()) or self._sp() == "run"):
+            return dict(res=("pending", 0, 0, 0, 0), cons=self._cons(), s1=bool(self.done), call=tuple(self.call_view), sp=self._sp())
+        return dict(res=res[0] if res else ("hang", 0, 0, 0, 0), cons=self._cons(), s1=bool(self.done), call=tuple(self.call_view), sp=self._sp())
 
     def close(self):
         self.w.close()
@@ -164,25 +190,32 @@ def gen_trace(rnd, max_items=8):
     if init["kind"] == "raising":
         init.update(n=0, nested=False, slow=0, ending="normal")
         n = 0
+    init["gsp"] = init["kind"] == "agen" and n >= 1 and rnd.random() < 0.4
     d = StreamsDriver()
     d.reset(init)
     tr = [dict(ev="Init", init=init)]
-    sst, ops = "fresh", 0
+    sst, ops, spawned = "fresh", 0, "none"
     try:
-        while ops < n + 3:
+        while ops < n + 4:
             if sst == "pulling":
-                name = rnd.choice(["Release", "Release", "CancelPull"])
+                if d.hold is not None and not d.hold.done():
+                    ch = ["Release", "Release", "CancelPull"]
+                else:                                    # exhausted, waiting for the spawned task
+                    ch = ["EndSpawned", "EndSpawned", "CancelPull"]
             else:
                 ch = ["Pull"] * 8 + ["Close"]
                 if sst == "open":
                     ch += ["Abandon"]
-                name = rnd.choice(ch)
+            if spawned == "run" and "EndSpawned" not in ch:
+                ch += ["EndSpawned"]
+            name = rnd.choice(ch)
             o = d.apply(name, ())
+            spawned = o["sp"]
             ops += 1
             k = o["res"][0]
             sst = {"pending": "pulling", "item": "open", "stop": "ended" if sst in ("fresh", "open") else sst,
                    "err": "ended", "closed": "closed", "cancelled": "cancelled", "abandoned": sst}.get(k, "dead")
-            tr.append(dict(ev=name, args=[], obs=dict(res=list(o["res"]), cons=list(o["cons"]), s1=o["s1"], call=list(o["call"]))))
+            tr.append(dict(ev=name, args=[], obs=dict(res=list(o["res"]), cons=list(o["cons"]), s1=o["s1"], call=list(o["call"]), sp=o["sp"])))
             if sst == "dead":
                 break
     finally:
@@ -191,21 +224,23 @@ def gen_trace(rnd, max_items=8):
 
 
 TRACE_KW = dict(
-    variables=["place", "n", "ending", "nested", "slow", "kind", "pos", "sst", "s1done", "called", "nops", "obs"],
+    variables=["place", "n", "ending", "nested", "slow", "kind", "gsp", "pos", "sst", "s1done", "called", "sp", "nops", "obs"],
     constants=dict(MaxItems=8, Bug='"none"'),
-    config_vars=["place", "n", "ending", "nested", "slow", "kind"],
-    actions=dict(Pull=0, Release=0, CancelPull=0, Close=0, Abandon=0),
-    invariants=["ItemsInOrder", "GenSeesCreation", "CallSeesStreamScope", "ConsumerIntact", "StreamScopeCompletes"])
+    config_vars=["place", "n", "ending", "nested", "slow", "kind", "gsp"],
+    actions=dict(Pull=0, Release=0, EndSpawned=0, CancelPull=0, Close=0, Abandon=0),
+    invariants=["ItemsInOrder", "GenSeesCreation", "CallSeesStreamScope", "ConsumerIntact", "StreamScopeCompletes",
+                "SpawnedSettled"])
 
 
 def run(rep, work, tier, seed):
     mi = 2 if tier == "quick" else 3
-    leg_m(rep, work, SPEC, f"mc_{tier}", cfg_text(dict(MaxItems=mi + 1, Bug="none"), invariants=INVS),
-          expect_actions=["Pull", "Release", "CancelPull", "Close", "Abandon"])
+    leg_m(rep, work, SPEC, f"mc_{tier}", cfg_text(dict(MaxItems=mi + 1, Bug="none"), spec="Spec", invariants=INVS, properties=PROPS),
+          expect_actions=["Pull", "Release", "EndSpawned", "CancelPull", "Close", "Abandon"])
     if tier == "thorough":
         for bug, inv in (("reorder", ["ItemsInOrder"]), ("swallow_error", ["EndsWithError", "ItemsInOrder"]),
-                         ("never_completes", ["StreamScopeCompletes"]), ("cancel_leaks_scope", ["StreamScopeCompletes"]), ("call_outside_scope", ["CallSeesStreamScope"])):
-            leg_mutant(rep, work, SPEC, f"mutant_{bug}", cfg_text(dict(MaxItems=2, Bug=bug), invariants=INVS), inv)
+                         ("never_completes", ["StreamScopeCompletes"]), ("cancel_leaks_scope", ["StreamScopeCompletes"]), ("call_outside_scope", ["CallSeesStreamScope"]), ("close_awaits_spawned", ["SpawnedSettled"])):
+            leg_mutant(rep, work, SPEC, f"mutant_{bug}",
+                       cfg_text(dict(MaxItems=2, Bug=bug), spec="Spec", invariants=INVS, properties=PROPS), inv)
     leg_r(rep, work, SPEC, f"conf_{tier}", cfg_text(dict(MaxItems=mi + 1, Bug="none"), invariants=INVS),
           StreamsDriver, world=True)
     # leg T: longer streams (up to 8 items, suspension before a random item) with random operation sequences
@@ -226,7 +261,7 @@ def replay(rep, record):
     from harness.graph import parse_label
     d = StreamsDriver()
     d.reset(record["init"])
-    print("  scenario:", {k: record["init"][k] for k in ("place", "n", "ending", "nested", "slow", "kind")})
+    print("  scenario:", {k: record["init"][k] for k in ("place", "n", "ending", "nested", "slow", "kind", "gsp")})
     try:
         for lab in record["path"]:
             name, args = parse_label(lab)
